@@ -1,3 +1,5 @@
+import MoSql.Gen.Lexemes
+import MoSql.Ref
 import MoSql.Lemmas.ScriptProps
 /-!
 C13 — a script parses to the list of its statements' trees.
@@ -56,5 +58,12 @@ containing `$$⏎` under `DELIMITER $$` is cut in the middle) -/
 theorem delimiter_in_literal_full_false :
     splitBlock "$$".toList 40 "select '$$\n' $$".toList
       = ["select '".toList, "' ".toList, []] := by decide
+
+/-- Tie A: the regular expressions the model was written against are the ones the current source
+compiles (regenerated on every run) -/
+theorem patterns_pinned :
+    ["delimiter_pattern", "delimiter_flags"].all (fun n =>
+      ((Gen.lexPatterns.find? (·.1 == n)).map (·.2)) == ((Ref.lexPatterns.find? (·.1 == n)).map (·.2))) = true := by
+  decide
 
 end MoSql.Props.C13
